@@ -46,7 +46,7 @@ type c03Op struct {
 
 func (p *c03) Bounds(tier string) map[string]interface{} {
 	B, d := c03Bounds(tier)
-	return map[string]interface{}{"B(|S|+|T|)": B, "bfs_depth": d, "schemas": []string{"base", "keys"}, "stores": store.Impls,
+	return map[string]interface{}{"B(|S|+|T|)": B, "bfs_depth": d, "schemas": []string{"base", "keys"}, "stores": append(append([]string{}, store.Impls...), store.StructImpls...),
 		"sources": []string{"ref", "json"}, "strategies": []string{"upsert", "insert", "update"}, "directions": []string{"from", "into"},
 		"value alphabet": "2 values per leaf, 3 keys per list (4 tuples for compound keys), <=2 entries per list"}
 }
@@ -66,7 +66,7 @@ var c03Entries = map[string][]string{
 func (p *c03) Cases(tier string, emit func(interface{})) {
 	B, depth := c03Bounds(tier)
 	for _, schema := range []string{"base", "keys"} {
-		for _, st := range store.Impls {
+		for _, st := range append(append([]string{}, store.Impls...), store.StructImpls...) {
 			for _, strat := range []string{"upsert", "insert", "update"} {
 				for _, entry := range c03Entries[schema] {
 					emit(c03Case{Part: "pairs", Schema: schema, Store: st, Source: "ref", Strat: strat, Dir: "from", Entry: entry, B: B})
